@@ -32,6 +32,53 @@ def cache_of(I, st, c):
     return z3.Select(sym_field(I, st, "params"), priv)
 
 
+CLEAR_CACHE_REPLAY = '''import sys, os, itertools
+sys.path.insert(0, os.environ.get('PYVC_REPO', '/repo'))
+import param
+bad = []
+# hierarchies of depth 1..3 (also a diamond); any subset of the classes has its .param cache filled
+# before a Parameter is added to / assigned on / re-declared on the ROOT: every class below must show it
+def build(shape):
+    R = type('R', (param.Parameterized,), {'x': param.Number(1)})
+    if shape == 'chain':
+        A = type('A', (R,), {}); B = type('B', (A,), {}); C = type('C', (B,), {})
+        return R, [A, B, C]
+    if shape == 'fan':
+        A = type('A', (R,), {}); B = type('B', (R,), {}); C = type('C', (A,), {}); D = type('D', (B,), {})
+        return R, [A, B, C, D]
+    A = type('A', (R,), {}); B = type('B', (R,), {}); D = type('D', (A, B), {}); E = type('E', (D,), {})
+    return R, [A, B, D, E]
+for shape in ('chain', 'fan', 'diamond'):
+    n = len(build(shape)[1])
+    for mask in range(2 ** n):
+        for how in ('add', 'assign-parameter', 'class-set-on-first-child'):
+            R, below = build(shape)
+            filled = [c for i, c in enumerate(below) if mask >> i & 1]
+            for c in filled:
+                c.param.objects('existing'); list(c.param); c.param.values()
+            if how == 'add':
+                R.param.add_parameter('z', param.Number(7)); name, want_owner = 'z', None
+            elif how == 'assign-parameter':
+                R.z = param.Number(7); name, want_owner = 'z', None
+            else:
+                below[0].x = 3; name, want_owner = 'x', below[0]
+            for c in below:
+                if name not in c.param:
+                    bad.append('%s, caches filled for %s, %s: %s.param does not list %r although %s.%s works'
+                               % (shape, [k.__name__ for k in filled], how, c.__name__, name, c.__name__, name))
+                    continue
+                import inspect
+                if c.param[name] is not inspect.getattr_static(c, name):
+                    bad.append('%s, caches filled for %s, %s: %s.param[%r] is not the Parameter that governs %s.%s'
+                               % (shape, [k.__name__ for k in filled], how, c.__name__, name, c.__name__, name))
+                if how == 'add' and 'z' not in c(z=-2.5).param.pprint():     # (a Parameter ASSIGNED to a class has no name: C11-b03)
+                    bad.append('%s, caches filled for %s, %s: pprint of %s(z=-2.5) drops z' % (shape, [k.__name__ for k in filled], how, c.__name__))
+if bad:
+    print('REPRODUCED: ' + bad[0]); sys.exit(1)
+print('NOT-REPRODUCED'); sys.exit(0)
+'''
+
+
 def clear_cache_contract():
     holder = {}
 
@@ -78,8 +125,11 @@ def clear_cache_contract():
                  z3.Implies(z3.Contains(holder["D"], z3.Unit(c)), z3.Select(st.ghost["cleared"], cache_of(I, st, c))))]
     loops = {("ParameterizedMetaclass._clear_params_cache", "descendents"): LoopSpec("descendents", inv=inv, heap=havoc,
                                                                                       name="every-descendant-cleared")}
-    return FunctionContract("%s:ParameterizedMetaclass._clear_params_cache" % MOD, PROP, setup, post, configure=configure,
-                            loops=loops, name="ParameterizedMetaclass._clear_params_cache")
+    c = FunctionContract("%s:ParameterizedMetaclass._clear_params_cache" % MOD, PROP, setup, post, configure=configure,
+                         loops=loops, name="ParameterizedMetaclass._clear_params_cache")
+    c.static_replay = CLEAR_CACHE_REPLAY
+    c.static_witness = "a Parameter added to the root of a hierarchy in which only some classes have their .param cache filled"
+    return c
 
 
 def events_lib(I):
